@@ -48,6 +48,20 @@ def cases(draw, tier):
 
 
 @st.composite
+def native_cases(draw, tier):
+    """The 'rich' half of cases(): outputs with dense levels below compressed ones at a small initial capacity, no
+    zero-sized dimension - the shapes whose growth formulas differ most - for the sanitized C / guarded LLVM stage."""
+    c = draw(gen.kernel_cases(max_leaves=3, sparse_output_bias=True, big_literals=False, min_target=2, min_dim=2,
+                              order_choices=(1, 2, 2, 3, 3), value_class="exact"))
+    if len(c["target"][1]) >= 2:
+        modes, ordering = C.fmt_parts(c["formats"]["o"])
+        shape = draw(st.sampled_from(["sds", "sd", "ssd", "dsd", "sdd", "sd"]))
+        c["formats"] = dict(c["formats"], o=C.fmt_text(tuple((shape * 2)[: len(modes)]), ordering))
+    c["capacity"] = draw(st.sampled_from([1, 1, 2, 3]))
+    return c
+
+
+@st.composite
 def hollow(draw, tier):
     c = draw(gen.hollow_cases())
     c["capacity"] = draw(st.sampled_from(kprops.CAPACITIES))
@@ -214,8 +228,10 @@ def run(chk):
     from ..runner import run_tasks
     from . import c06
 
-    per = 4 if chk.tier == "quick" else 320
-    tasks = [(chk.tier, chk.seed + 17, s, per, True, "clang-14" if s % 2 == 0 else "gcc") for s in range(16)]
+    per = 6 if chk.tier == "quick" else 320
+    # C05's own shapes (compressed-then-dense outputs, every small capacity) for half of the shards, C06's mix for the rest
+    tasks = [(chk.tier, chk.seed + 17, s, per, True, "clang-14" if s % 2 == 0 else "gcc") + ((__name__ + ":native_cases",) if s % 4 < 2 else ())
+             for s in range(16)]
     native = run_tasks(c06.kernel_shard, tasks).keep_buckets(lambda b: b.startswith(SAFETY_NATIVE))
     native.nontrivial_keys = set()  # counted on the abstract machine only
     native.samples = []
